@@ -14,13 +14,17 @@ def sh(cmd, **kw):
 if not os.path.exists(CLONE):
     subprocess.check_call(["rsync", "-a", "--exclude", ".git/worktrees", "/repo/", CLONE + "/"])
 sh("git -C %s fetch -q /repo HEAD && git -C %s reset -q --hard FETCH_HEAD" % (CLONE, CLONE))
+SUB, PFX = "REFACTOR", "a"
+if len(sys.argv) > 2 and sys.argv[1] == "--round3":
+    SUB, PFX = "REFACTOR3", "b"
+    del sys.argv[1]
 for n in sys.argv[1:]:
-    base = "/tmp/seed2-C%02d/REFACTOR" % int(n)
+    base = "/tmp/seed2-C%02d/%s" % (int(n), SUB)
     for k in sorted(os.listdir(base)):
         p = os.path.join(base, k, "patch.diff")
         if not os.path.exists(p):
             continue
-        dst = os.path.join(VERIF, "benign", "a%02d-%s.diff" % (int(n), k))
+        dst = os.path.join(VERIF, "benign", "%s%02d-%s.diff" % (PFX, int(n), k))
         r = sh("git -C %s apply --3way %s" % (CLONE, p))
         if r.returncode:
             print(n, k, "DOES NOT APPLY", r.stderr[-200:])
